@@ -14,7 +14,7 @@ import (
 // real debug library and do not disturb the line numbers of the program under test.
 const prelude = `
 local getinfo, getlocal, setlocal, getupvalue, setupvalue = debug.getinfo, debug.getlocal, debug.setlocal, debug.getupvalue, debug.setupvalue
-local RI, RL, RU, RS = RI, RL, RU, RS
+local RI, RL, RU, RS, RF = RI, RL, RU, RS, RF
 local seen = {}
 local function enum(id, lvl, phase)
   local i = 1
@@ -43,6 +43,8 @@ function Q(id)
     local inf = getinfo(lvl + 1, "Slf")
     if inf == nil then break end
     RI(id, lvl, inf.what, inf.currentline, inf.linedefined, inf.lastlinedefined)
+    local byf = getinfo(inf.func, "Sl")
+    RF(id, lvl, byf.linedefined, byf.lastlinedefined, byf.currentline)
     if inf.what ~= "G" then
       enum(id, lvl, 0)
       enumup(id, lvl, 0, inf.func)
@@ -95,7 +97,8 @@ type runResult struct {
 	Info    map[[2]int]frameInfo
 	Locals  map[key3][]obsBinding
 	Upvals  map[key3][]obsBinding
-	SetRet  map[int]*string // QS/QU: returned name
+	ByFunc  map[[2]int][3]int // getinfo(func, "Sl"): linedefined, lastlinedefined, currentline
+	SetRet  map[int]*string   // QS/QU: returned name
 	SetSeen map[int]bool
 }
 
@@ -112,7 +115,7 @@ func lvInt(v lua.LValue) *int64 {
 
 // runSource loads and runs one rendered program in a fresh state.
 func runSource(src []byte) (res *runResult) {
-	res = &runResult{Scen: map[int]string{}, ScenOK: map[int]bool{}, Info: map[[2]int]frameInfo{},
+	res = &runResult{ByFunc: map[[2]int][3]int{}, Scen: map[int]string{}, ScenOK: map[int]bool{}, Info: map[[2]int]frameInfo{},
 		Locals: map[key3][]obsBinding{}, Upvals: map[key3][]obsBinding{}, SetRet: map[int]*string{}, SetSeen: map[int]bool{}}
 	L := lua.NewState()
 	defer L.Close()
@@ -123,6 +126,10 @@ func runSource(src []byte) (res *runResult) {
 	}()
 	L.SetGlobal("RI", L.NewFunction(func(L *lua.LState) int {
 		res.Info[[2]int{L.CheckInt(1), L.CheckInt(2)}] = frameInfo{L.CheckString(3), L.CheckInt(4), L.CheckInt(5), L.CheckInt(6)}
+		return 0
+	}))
+	L.SetGlobal("RF", L.NewFunction(func(L *lua.LState) int {
+		res.ByFunc[[2]int{L.CheckInt(1), L.CheckInt(2)}] = [3]int{L.CheckInt(3), L.CheckInt(4), L.CheckInt(5)}
 		return 0
 	}))
 	rec := func(m map[key3][]obsBinding) lua.LGFunction {
